@@ -69,6 +69,9 @@ __DEFAULT_FIELDS = [
 
 def read_csv(path: str, encoding='utf-8', delimiter=';') -> WBS:
     raws: List[TaskRaw] = []
+    if encoding.lower() in ('utf-8', 'utf8'):
+        # skip byte-order mark, if any
+        encoding = 'utf-8-sig'
     with open(path, mode='r', encoding=encoding, newline='\n') as input_file:
         csvfile = csv.reader(input_file, delimiter=delimiter)
         header = __parse_header(next(csvfile))
